@@ -758,6 +758,19 @@ DIGEST_LEN = {"ring::digest::SHA512": 64, "ring::digest::SHA256": 32, "ring::dig
               "ring::digest::SHA512_256": 32}
 
 
+_BL_MODE = ["exact"]
+
+
+def bytelen_max(W, ev, t):
+    """Upper bound of the length of a byte-string valued term: like bytelen, but alternatives (a digest whose width depends on the version)
+    give the largest."""
+    _BL_MODE[0] = "max"
+    try:
+        return bytelen(W, ev, t)
+    finally:
+        _BL_MODE[0] = "exact"
+
+
 def bytelen(W, ev, t, depth=0):
     """Length in bytes of a byte-string valued term, or None when unknown.  `ev` supplies the assumption set used to
     resolve crate-local accessor calls (e.g. the version)."""
@@ -780,6 +793,8 @@ def bytelen(W, ev, t, depth=0):
         return None
     if k == "phi":
         ls = {bytelen(W, ev, a, depth + 1) for a in t[1]}
+        if _BL_MODE[0] == "max" and ls and None not in ls:
+            return max(ls)
         return ls.pop() if len(ls) == 1 else None
     if k == "index":
         rng = t[2]
